@@ -25,6 +25,14 @@ func init() {
 			"	if s.curPart != nil {\n		err = s.closeCurPart()\n	}\n\n	if s.fi != nil {", "	if s.fi != nil {", "C27.duration"},
 		Mutant{"C27", "duration-wrong-operand", "internal/recorder/format_fmp4_segment.go",
 			"		duration := s.endDTS - s.startDTS\n		err2 := writeDuration(s.fi, duration)", "		duration := s.endDTS\n		err2 := writeDuration(s.fi, duration)", "C27.duration"},
+		Mutant{"C27", "enddts-guard-dropped", "internal/recorder/format_fmp4_segment.go",
+			"	if endDTS > s.endDTS {\n		s.endDTS = endDTS\n	}\n", "	s.endDTS = endDTS\n", "C27.duration"},
+		Mutant{"C27", "enddts-guard-inverted", "internal/recorder/format_fmp4_segment.go",
+			"	if endDTS > s.endDTS {\n", "	if endDTS < s.endDTS {\n", "C27.duration"},
+		Mutant{"C27", "enddts-min-instead-of-max", "internal/recorder/format_fmp4_segment.go",
+			"	if endDTS > s.endDTS {\n		s.endDTS = endDTS\n	}\n", "	s.endDTS = min(s.endDTS, endDTS)\n", "C27.duration"},
+		Mutant{"C27", "enddts-max-of-wrong-field", "internal/recorder/format_fmp4_segment.go",
+			"	if endDTS > s.endDTS {\n		s.endDTS = endDTS\n	}\n", "	s.endDTS = max(s.startDTS, endDTS)\n", "C27.duration"},
 		Mutant{"C27", "fi-set-before-header", "internal/recorder/format_fmp4_segment.go",
 			"		s.f.ri.onSegmentCreate(s.path)\n\n		err = writeInit(", "		s.f.ri.onSegmentCreate(s.path)\n		s.fi = fi\n\n		err = writeInit(", "C27.header_first"},
 		Mutant{"C27", "part-written-in-two-writes", "internal/recorder/format_fmp4_part.go",
@@ -246,9 +254,19 @@ func runC27(c *Ctx) {
 				c.Check("C27.duration", fnName(fn)+": endDTS starts at startDTS", desc(st.Val) == "$0.startDTS", p.Pos(st.Pos()), desc(st.Val))
 			case segWrite:
 				sst := st
-				c.checkMustPassPred(p, fn, "C27.duration", fnName(fn)+": endDTS is stored only when the new end is greater (monotone)",
+				key := fnName(fn) + ": endDTS is stored only when the new end is greater (monotone)"
+				if storesAtLeastOld(sst) {
+					// value form: s.endDTS = max(s.endDTS, v) is >= the old value by construction (prop_gen_c27.go)
+					c.Check("C27.duration", key, true, p.Pos(st.Pos()), "stored value is max(old, ...)")
+					break
+				}
+				// guard form: old < new on every path, or its non-strict twin !(new < old)
+				nv := desc(sst.Val)
+				c.checkMustPassPred(p, fn, "C27.duration", key,
 					func(i ssa.Instruction) bool { return i == ssa.Instruction(sst) },
-					func(l Lit) bool { return l.Pos && l.Atom == "($0.endDTS < "+desc(sst.Val)+")" })
+					func(l Lit) bool {
+						return (l.Pos && l.Atom == "($0.endDTS < "+nv+")") || (!l.Pos && l.Atom == "("+nv+" < $0.endDTS)")
+					})
 			default:
 				c.Check("C27.duration", fnName(fn)+": stores formatFMP4Segment.endDTS", false, p.Pos(st.Pos()), "only initialize and write may")
 			}
